@@ -331,13 +331,11 @@ class Real:
                 stg.setdefault(MGR[i // NS], {})[SCN[i % NS]] = mk_dict(d)
             b.begin_session(scenarios=[SCN[x] for x in ks], scenario_managers=[MGR[x] for x in ms], settings=stg,
                             equations=list(EQS), starttime=0.0, dt=1.0)
-            lines = []
-            for i in slots:
-                if i in settings:
-                    lines.append(f"configure {i} {dict_args(settings[i])}")
-                lines.append(f"reset {i}")
+            # ONE call: the model lowers it (settings per (manager, scenario) pair, managers in call order)
+            sets = [(i, d) for m in ms for i, d in settings.items() if i // NS == m]
+            line = f"session {NS} {','.join(str(i) for i in slots)}" + "".join(f" {i} {dict_args(d)}" for i, d in sets)
             self.session = (ms, ks)
-            return lines, slots, []
+            return [line], slots, []
         if k == "step":
             _, settings = op
             ss = b.session_state
@@ -459,6 +457,14 @@ class Shadow:
                 clean = all(g == e for g in s["gens"])
                 s["gens"].append(e)
                 return (int(p[1]), s, clean)
+        elif p[0] == "session":
+            # the call's reading: settings addressed to a (manager, scenario) pair are configured on that pair; every slot is reset
+            slots = [int(x) for x in p[2].split(",")] if p[2] != "-" else []
+            sets = {int(p[j]): p[j + 1:j + 6] for j in range(3, len(p), 6)}
+            for i in slots:
+                if i in sets:
+                    self.line("configure %d %s" % (i, " ".join(sets[i])))
+                self.line(f"reset {i}")
         elif p[0] == "configure":
             s = self.s.get(int(p[1]))
             if s is not None:
@@ -716,7 +722,16 @@ def rand_history(rng):
             ops.append(("run",) + tuple(rand_sel(rng)))
         elif r < 9:
             ms, ks = rand_sel(rng)
-            ops.append(("session", ms, ks, {slot(m, k): rand_dict(rng) for m in ms for k in ks if rng.chance(1, 2)}))
+            if rng.chance(1, 2):
+                # a session spanning both managers (either order), names they share and names they do not; settings under one / both /
+                # neither manager
+                ms = rng.shuffle([0, 1])
+                ks = sorted(set(ks) | {rng.below(NS)})
+                which = rng.choice([[ms[0]], [ms[1]], ms, []])
+                sett = {slot(m, k): rand_dict(rng) for m in which for k in ks if rng.chance(2, 3)}
+            else:
+                sett = {slot(m, k): rand_dict(rng) for m in ms for k in ks if rng.chance(1, 2)}
+            ops.append(("session", ms, ks, sett))
             in_session = True
         elif r < 13 and in_session:
             ops.append(("step", {slot(rng.below(NM), rng.below(NS)): rand_dict(rng, False) for _ in range(rng.range(0, 2))}))
@@ -739,7 +754,9 @@ EX_ALPHA = [("run", [0], [0]), ("run", [0, 1], [0, 1]), ("session", [0], [0], {0
             # wave 2
             ("reset", 0), ("session", [0], [0], {0: {"consts": {1: 9}}}), ("add", 4, {}),
             # wave 5: re-registration of an existing name with a different dictionary
-            ("add", 0, {"consts": {2: 6}})]
+            ("add", 0, {"consts": {2: 6}}),
+            # wave 8: ONE session over both managers (slots 0 and 3 have the same scenario name), settings under one manager only
+            ("session", [0, 1], [0, 1], {3: {"consts": {1: 8}}})]
 EX_CORE = [1, 2, 4, 6, 9, 10, 11]          # the state-changing letters used for the longest histories
 
 
@@ -786,6 +803,22 @@ def probe():
                                   pts_code(B.points["p0"]) == 3 and pts_code(mg.base_points["p0"]) == 3 and
                                   A.constants is not mg.base_constants and A.points is not mg.base_points and
                                   A.constants is not B.constants and A.points is not B.points)
+    finally:
+        b.destroy()
+    # session settings address (manager, scenario) pairs: two managers owning a scenario of the same name, ONE session over both,
+    # settings given under one manager only
+    b = bptk()
+    try:
+        b.register_scenario_manager({"m0": {"model": base}, "m1": {"model": base}})
+        b.register_scenarios(scenarios={"s0": {}}, scenario_manager="m0")
+        b.register_scenarios(scenarios={"s0": {}, "s1": {}}, scenario_manager="m1")
+        b.begin_session(scenarios=["s0", "s1"], scenario_managers=["m0", "m1"], equations=list(EQS), starttime=0.0, dt=1.0,
+                        settings={"m0": {"s0": {"constants": {"c0": 9.0}, "points": {"p0": pts_val(8)}, "runspecs": {"stoptime": 3.0}},
+                                         "s1": {"constants": {"c1": 7.0}}}})
+        o0, o1 = b.get_scenario("m1", "s0"), b.get_scenario("m1", "s1")
+        facts["sessionAddressesPair"] = (b.get_scenario("m0", "s0").constants.get("c0") == 9.0 and not o0.constants and not o0.points and
+                                         int(o0.stoptime) == DEF_RS[1] and not o1.constants)
+        b.end_session()
     finally:
         b.destroy()
     # re-registration under a known name: a new clone, nothing of the old one survives
@@ -861,8 +894,12 @@ def probe_files():
 def gen_lean(f):
     tf = lambda x: "true" if x else "false"
     good = f["cloneOwnsPoints"] and f["mergeOwnsDict"] and f["reregFreshClone"]
-    if good:
+    if good and not f["sessionAddressesPair"]:
         body = ("theorem holds : C06_full cfg := C06_full_of_good cfg (by decide) (by decide) (by decide)\n#print axioms holds\n"
+                "theorem violated : ¬ C06_calls cfg := C06_witness_session_by_name cfg (by decide)\n#print axioms violated\n")
+    elif good:
+        body = ("theorem holds : C06_full cfg := C06_full_of_good cfg (by decide) (by decide) (by decide)\n#print axioms holds\n"
+                "theorem holds_calls : C06_calls cfg := C06_calls_of_good cfg (by decide) (by decide) (by decide) (by decide)\n#print axioms holds_calls\n"
                 "theorem reregistration (b : Base) (pre mid post : List Op) (i m m' : Nat) (d d' : Dict) :\n"
                 "    view (exec cfg b (pre ++ [Op.add i m d] ++ mid ++ [Op.add i m' d'] ++ post)) i =\n"
                 "    (soloExec b i ((pre ++ [Op.add i m d] ++ mid ++ [Op.add i m' d'] ++ post).filter (relevant i))).s :=\n"
@@ -889,13 +926,19 @@ def gen_lean(f):
     return ("import Bptk.Props.C06\n/-! GENERATED by harness/props/c06.py from /repo on every run — do not edit. -/\n"
             "namespace Bptk.C06.Gen\n"
             f"def cfg : Cfg := {{ cloneOwnsPoints := {tf(f['cloneOwnsPoints'])}, cloneOwnsElements := {tf(f['cloneOwnsElements'])}, "
-            f"mergeOwnsDict := {tf(f['mergeOwnsDict'])}, reregFreshClone := {tf(f['reregFreshClone'])} }}\n" + body + "end Bptk.C06.Gen\n")
+            f"mergeOwnsDict := {tf(f['mergeOwnsDict'])}, reregFreshClone := {tf(f['reregFreshClone'])}, "
+            f"sessionAddressesPair := {tf(f['sessionAddressesPair'])} }}\n" + body + "end Bptk.C06.Gen\n")
 
 
 WITNESS = [("regmgr", 0, {}, {}), ("add", 0, {}), ("add", 1, {}), ("session", [0], [0], {}), ("step", {0: {"pts": {0: 7}}}), ("run", [0], [1])]
 # Lean `witnessReregOps`: a name registered with own constants / points / stop time, run, registered again without them, run
 WITNESS_REREG = [("regmgr", 0, {}, {}), ("add", 0, {"consts": {0: 9}, "pts": {0: 7}, "stop": 3}), ("run", [0], [0]), ("add", 0, {}), ("run", [0], [0]),
                  ("session", [0], [0], {}), ("step", {0: {"consts": {1: 4}, "pts": {1: 8}}}), ("add", 0, {"consts": {2: 5}}), ("run", [0], [0])]
+# Lean `witnessSessionCalls`: two managers with a scenario of the same name, one session over both, settings under one manager only;
+# observed during the session (step), after it (run) and after a second session with settings under the other manager
+WITNESS_SESSION = [("regmgr", 0, {}, {}), ("regmgr", 1, {}, {}), ("add", 0, {}), ("add", 3, {}), ("add", 4, {}),
+                   ("session", [0, 1], [0, 1], {0: {"consts": {0: 9}, "pts": {0: 7}}}), ("step", {}), ("endsession",), ("run", [0, 1], [0, 1]),
+                   ("session", [1, 0], [0], {3: {"consts": {1: 4}, "stop": 3}}), ("step", {}), ("run", [0], [0])]
 # Lean `witnessMergeOps` / `witnessLateOps`: base constants, siblings without own dictionaries, re-parameterise one, run / register another
 WITNESS_MERGE = [("regmgr", 0, {0: 5}, {1: 3}), ("add", 0, {}), ("add", 1, {}), ("session", [0], [0], {0: {"consts": {0: 9}, "pts": {1: 4}}}),
                  ("run", [0], [1]), ("add", 2, {}), ("run", [0], [2])]
@@ -957,6 +1000,9 @@ def coverage_rows(hs):
                 if read_seen: inc("registration after a run / step (later registration)")
                 seen_add.add(o[1])
             if o[0] in ("run", "step", "rest"): read_seen = True
+            if o[0] == "session" and len(o[1]) == 2:
+                inc("one session over two managers")
+                inc(f"one session over two managers: settings under {len({i // NS for i in o[3]})} of them")
             if o[0] == "reset": inc("reset_scenario_cache")
             if o[0] == "evalbase": inc("direct evaluation of the base model")
         for chan, d in dicts(h):
@@ -978,7 +1024,7 @@ def process_chunk(arg):
     hs, facts = arg
     quiet_bptk_logging()
     req = [f"cfg {1 if facts['cloneOwnsPoints'] else 0} {1 if facts['cloneOwnsElements'] else 0} {1 if facts['mergeOwnsDict'] else 0} "
-           f"{1 if facts['reregFreshClone'] else 0}"]
+           f"{1 if facts['reregFreshClone'] else 0} {1 if facts['sessionAddressesPair'] else 0}"]
     real = ["ok"]
     first, kinds, stats_all, bounds, cases = {}, {}, {"reads": 0, "reads_checked": 0}, [], []
     for ops in hs:
@@ -1052,7 +1098,7 @@ def _run(chk):
                        "nobody edits the base model object or a clone's elements directly (the property quantifies over scenario operations; `element[k] = v` on a clone writes the shared `_elements` table and is outside the alphabet)",
                        "tree carries fixes/C07-scenario-points-keep-table (the model describes SimulationScenario.__init__ merging, not replacing, the points table)"]
     rng = chk.rng.fork("c06")
-    hs = [WITNESS, WITNESS_MERGE, WITNESS_REREG]
+    hs = [WITNESS, WITNESS_MERGE, WITNESS_REREG, WITNESS_SESSION]
     if chk.quick:
         ex, na = exhaustive_histories(2)
         ex_desc = f"all histories of length 2 over the {na}-letter alphabet"
